@@ -116,8 +116,10 @@ func Cycle(n int) *DenseGraph {
 //Star returns a copy of the star on n vertices.
 func Star(n int) *DenseGraph {
 	edges := make([]byte, (n*(n-1))/2)
+	m := 0
 	for i := 1; i < n; i++ {
 		edges[(i*(i-1))/2] = 1
+		m++
 	}
 
 	degrees := make([]int, n)
@@ -128,7 +130,7 @@ func Star(n int) *DenseGraph {
 		}
 	}
 
-	return &DenseGraph{NumberOfVertices: n, NumberOfEdges: n - 1, DegreeSequence: degrees, Edges: edges}
+	return &DenseGraph{NumberOfVertices: n, NumberOfEdges: m, DegreeSequence: degrees, Edges: edges}
 }
 
 //RookGraph returns the n x m Rook graph i.e. the graph representing the moves of a rook on an n x m chessboard.
